@@ -5,6 +5,7 @@ package app
 // whole-segment response; chunk spans are judged logically; the never-early check is one-sided (load can only hide, never fabricate).
 
 import (
+	"context"
 	"encoding/binary"
 	"fmt"
 	"net/http"
@@ -156,6 +157,9 @@ func TestVerifC09(t *testing.T) {
 					// paced requests with a non-zero start time for every representation (the pacing clock includes AST)
 					if k == 1 && ai == 2 && ato <= 3000 {
 						mustPaced = append(mustPaced, job{w, rp, n, ato, cs, 0, "at-availability", 1000})
+						if ato >= 600 {
+							mustPaced = append(mustPaced, job{w, rp, n, ato, cs, 0, "cancelled-midway", 0})
+						}
 						// the next segment may have another duration (alternating assets): its offset is taken from its own duration,
 						// an offset that leaves no chunk duration is outside the statement
 						_, vs2, ve2 := a.LiveSeg(a.Ref, n+1)
@@ -200,6 +204,14 @@ func TestVerifC09(t *testing.T) {
 		u := vfURL(cfg, j.w.Ref.Path, vfMediaURL(rp, uint64(j.n)), nowMS)
 		rec := &vfRecWriter{hdr: http.Header{}}
 		req := httptest.NewRequest("GET", u, nil)
+		if j.kind == "cancelled-midway" {
+			// the client goes away (or the server's request timeout fires) while the handler waits for a chunk
+			ctx, cancel := context.WithCancel(req.Context())
+			req = req.WithContext(ctx)
+			tm := time.AfterFunc(time.Duration(j.atoMS/3)*time.Millisecond, cancel)
+			defer tm.Stop()
+			defer cancel()
+		}
 		rec.t0 = time.Now()
 		j.w.Srv.Router.ServeHTTP(rec, req)
 		r.Eval(1)
@@ -221,6 +233,30 @@ func TestVerifC09(t *testing.T) {
 				sig = "crash"
 			}
 			r.Violation(sigp+sig, det(vfTrunc(rec.body, 80)))
+			return
+		}
+		if j.kind == "cancelled-midway" {
+			// whatever was written before the handler gave up must still not be early; completeness is not demanded
+			if cs, err := ora.ParseSegment(rec.body, rp.Trex); err == nil {
+				if chunks, _, err := vfChunks(rec.body, cs); err == nil {
+					for i, c := range chunks {
+						var at time.Duration = -1
+						for _, ev := range rec.evs {
+							if ev.total >= c.endOff {
+								at = ev.at
+								break
+							}
+						}
+						endMS := j.startS*1000 + int64((c.tfdt+c.dur)*1000/rp.Timescale)
+						if at >= 0 && nowMS+at.Milliseconds()+2 < endMS {
+							r.Violation(sigp+"chunk-written-before-its-end-time:after-cancellation", det(fmt.Sprintf("chunk %d ends at %d ms, written at request(%d)+%d ms; request cancelled after %d ms", i, endMS, nowMS, at.Milliseconds(), j.atoMS/3)))
+							return
+						}
+					}
+					r.Add("chunks_judged_in_cancelled_requests", int64(len(chunks)))
+				}
+			}
+			r.Class(fmt.Sprintf("%s|%s|cancelled-midway", j.w.Ref.Path, rp.ContentType))
 			return
 		}
 		// whole-segment reference (far later, so that it is certainly available)
